@@ -1,9 +1,412 @@
 package props
 
-import "verif/internal/core"
+import (
+	"encoding/json"
+	"fmt"
+	"regexp"
+	"sort"
+	"strings"
+	"time"
 
-// C19 — stub, replaced by the real check.
+	"verif/internal/core"
+)
+
+type c19Backend struct {
+	ID       string   `json:"id"`
+	Agent    string   `json:"agent"`
+	EndUser  string   `json:"end_user"`
+	Prefixes []string `json:"prefixes"`
+}
+
+type c19Exchange struct {
+	Tok          string `json:"tok"`
+	Backend      string `json:"backend"`
+	User         string `json:"user"`
+	Path         string `json:"path"`
+	Method       string `json:"method"`
+	ReqSize      int    `json:"req_size"`
+	RespSize     int    `json:"resp_size"`
+	Status       int    `json:"status"`
+	CacheControl bool   `json:"cache_control"`
+	Answer       bool   `json:"answer"`
+}
+
+type c19Viol struct {
+	Sig string `json:"sig"`
+	Msg string `json:"msg"`
+}
+
+type c19Call struct {
+	Ep     string `json:"ep"`
+	Status int    `json:"status"`
+	Ms     int64  `json:"ms"`
+	Hung   bool   `json:"hung"`
+}
+
+var c19Sizes = []int{1024, 999999, 1000000, 1000001, 1999999, 2000000, 2000001, 3500000}
+
+func c19SizeCls(n int) string {
+	switch {
+	case n == 0:
+		return "none"
+	case n < 999999:
+		return "<1M"
+	case n <= 1000001:
+		return fmt.Sprintf("1M%+d", n-1000000)
+	case n < 1999999:
+		return "1M..2M"
+	case n <= 2000001:
+		return fmt.Sprintf("2M%+d", n-2000000)
+	case n < 2999999:
+		return "2M..3M"
+	case n <= 3000001:
+		return fmt.Sprintf("3M%+d", n-3000000)
+	}
+	return ">3M"
+}
+
+func (e *c19Exchange) class() string {
+	return fmt.Sprintf("exchange|%s|req:%s|resp:%s|%d|answered:%v|cache-control:%v", e.Method, c19SizeCls(e.ReqSize), c19SizeCls(e.RespSize), e.Status, e.Answer, e.CacheControl)
+}
+
+var c19Backends = []c19Backend{
+	{ID: "bk0", Agent: "agent0@sa.example.com", EndUser: "u0@example.com", Prefixes: []string{"/s0/"}},
+	{ID: "bk1", Agent: "agent1@sa.example.com", EndUser: "allUsers", Prefixes: []string{"/s1/"}},
+	{ID: "bk2", Agent: "agent2@sa.example.com", EndUser: "u2@example.com", Prefixes: []string{"/s2/"}},
+}
+
+func c19Generate(r *core.Run) []c19Exchange {
+	rng := r.Rand("c19")
+	var exs []c19Exchange
+	statuses := []int{200, 200, 201, 404, 500}
+	add := func(method string, req, resp int, answer bool) {
+		b := c19Backends[rng.Intn(len(c19Backends))]
+		user := b.EndUser
+		if user == "allUsers" {
+			user = fmt.Sprintf("visitor%d@example.com", rng.Intn(5))
+		}
+		exs = append(exs, c19Exchange{Tok: fmt.Sprintf("s%dx%d", r.Seed, len(exs)), Backend: b.ID, User: user, Path: b.Prefixes[0], Method: method,
+			ReqSize: req, RespSize: resp, Status: statuses[rng.Intn(len(statuses))], CacheControl: rng.Intn(2) == 0, Answer: answer})
+	}
+	// never answered: 504 after the designed 30 s wait (run in parallel with everything else)
+	add("GET", 0, 1024, false)
+	add("POST", 1000001, 1024, false)
+	// every request size x every response size
+	for _, rq := range c19Sizes {
+		for _, rs := range c19Sizes {
+			add([]string{"POST", "PUT"}[rng.Intn(2)], rq, rs, true)
+		}
+	}
+	// plain GETs (cacheable when 200 without Cache-Control; unique URLs)
+	for _, rs := range c19Sizes {
+		add("GET", 0, rs, true)
+		exs[len(exs)-1].Status = 200
+		exs[len(exs)-1].CacheControl = len(exs)%2 == 0
+	}
+	if !r.Quick() {
+		for len(exs) < 3000 {
+			rq, rs := 200+rng.Intn(60000), 200+rng.Intn(60000)
+			if rng.Intn(10) < 3 {
+				rq = c19Sizes[rng.Intn(len(c19Sizes))] + rng.Intn(3) - 1
+			}
+			if rng.Intn(10) < 3 {
+				rs = c19Sizes[rng.Intn(len(c19Sizes))] + rng.Intn(3) - 1
+			}
+			m := []string{"POST", "PUT", "GET", "DELETE"}[rng.Intn(4)]
+			if m == "GET" && rng.Intn(2) == 0 {
+				rq = 0
+			}
+			add(m, rq, rs, true)
+		}
+	}
+	return exs
+}
+
+var c19IDRe = regexp.MustCompile(`"[^"]*"`)
+
+// c19FaultName strips instance names from a fired-rule description:
+// `datastore_v3.Put:req:"bk"|` -> `datastore_v3.Put:req:`.
+func c19FaultName(f string) string {
+	return strings.TrimRight(c19IDRe.ReplaceAllString(f, ""), "|:")
+}
+
+// c19HangSig names a hanging call by endpoint and by which injected
+// failures preceded it.
+func c19HangSig(ep string, fired []string) string {
+	name := map[string]string{"post": "response-post", "fetch": "request-fetch", "pending": "pending-list", "client": "client-request"}[ep]
+	if name == "" {
+		name = ep
+	}
+	var fs []string
+	puts := 0
+	for _, f := range fired {
+		fs = append(fs, c19FaultName(f))
+		if strings.HasPrefix(f, "datastore_v3.Put:") && !strings.Contains(f, "Tracker") {
+			puts++
+		}
+	}
+	if ep == "post" && puts >= 2 {
+		return "C19:response-post-hangs:both-writes-fail"
+	}
+	sort.Strings(fs)
+	return "C19:" + name + "-hangs:" + strings.Join(fs, "+")
+}
+
+type c19PlanRec struct {
+	Plan     string            `json:"plan"`
+	Endpoint string            `json:"endpoint"`
+	Rules    []json.RawMessage `json:"rules"`
+	ReqSize  int               `json:"req_size"`
+	RespSize int               `json:"resp_size"`
+	Calls    []c19Call         `json:"calls"`
+	Viol     []c19Viol         `json:"viol"`
+	Fired    []string          `json:"fired"`
+	Hung     []string          `json:"hung"`
+	Listed   bool              `json:"listed"`
+	Broken   string            `json:"broken"`
+	Blocked  []string          `json:"blocked_goroutines"`
+	Solo     *struct {
+		Hung    []string  `json:"hung"`
+		Calls   []c19Call `json:"calls"`
+		Error   string    `json:"error"`
+		Blocked []string  `json:"blocked_goroutines"`
+	} `json:"solo"`
+}
+
+// C19 — the App Engine proxy relays each request and its response intact.
 func C19(r *core.Run) {
-	r.Broken("check not implemented yet")
-	r.Finish(1)
+	r.Level = "fault_enumeration"
+	r.SetRule("(a) concurrent client handlers + agent pollers (list/fetch/post) in one world with unique tokens: every request size x response size over {1 KiB, 999 999, 1 000 000, 1 000 001, 1 999 999, 2 000 000, 2 000 001, 3.5 MB} (sizes of the serialised messages, hit exactly), POST/PUT/GET, statuses, cacheable and not, requests never answered (504); (b) store-level write/read-back of requests and responses at the size boundaries on the persistent store, the caching store and the caching store with memcache failing; (c) fault plans: one exchange per plan in a world of its own, failing the n-th call of each (service, method, entity kind) seen at each endpoint, and every pair of them for the response post; class = (phase, method, request size class, response size class, status, answered, cache-control) for exchanges, (stack, kind, size class) for blobs, (endpoint, failed operations, payload class) for fault plans")
+	r.Assume("T = 45 s progress bound per handler call (designed waits are 30 s; fault-free calls take < 3 s); a call exceeding it is re-run alone in a fresh process before it is reported; under an injected fault the client may receive a proxy-generated 404/500/504 instead of the response; the memcache GET-response cache is not judged (unique URLs); datastore transactions are not isolated by the fake")
+	bin := r.MustBuild(e3Build(r))
+	exs := c19Generate(r)
+	blobs := append([]int{0, 1, 2999999, 3000000, 3000001}, c19Sizes...)
+	if !r.Quick() {
+		rng := r.Rand("c19-blobs")
+		for k := 1; k <= 5; k++ {
+			for d := -3; d <= 3; d++ {
+				blobs = append(blobs, k*1000000+d)
+			}
+		}
+		for i := 0; i < 20; i++ {
+			blobs = append(blobs, rng.Intn(4200000))
+		}
+	}
+	tmpl := func(tok string, rq, rs int) c19Exchange {
+		return c19Exchange{Tok: tok, Backend: "bkF", User: "uf@example.com", Path: "/f/", Method: "POST", ReqSize: rq, RespSize: rs, Status: 200, Answer: true}
+	}
+	faults := map[string]interface{}{"templates": []c19Exchange{tmpl("fs", 1024, 1024), tmpl("fb", 2000001, 2000001)}, "nth": []int{1}, "workers": 16}
+	if !r.Quick() {
+		faults = map[string]interface{}{"templates": []c19Exchange{tmpl("fs", 1024, 1024), tmpl("fb", 2000001, 2000001), tmpl("fm", 1000000, 999999), tmpl("fx", 3500000, 1024)},
+			"nth": []int{1, 2}, "timeouts": true, "workers": 16}
+	}
+	const T = 45000
+	spec := map[string]interface{}{"mode": "c19", "t_ms": T, "conc": r.Pick(16, 24), "backends": c19Backends, "exchanges": exs, "blobs": blobs, "faults": faults}
+	res := e3Run(r, bin, "c19", spec, time.Duration(r.Pick(300, 1200))*time.Second)
+
+	byTok := map[string]*c19Exchange{}
+	for i := range exs {
+		byTok[exs[i].Tok] = &exs[i]
+	}
+	var plans []*c19PlanRec
+	var hangRerun []c19Exchange
+	nEx, nBlob, exact, maxMs := 0, 0, 0, int64(0)
+	got504 := 0
+	for _, ln := range res.Lines {
+		var probe struct {
+			Ex         *string          `json:"ex"`
+			Blob       *int             `json:"blob"`
+			Plan       *string          `json:"plan"`
+			Poller     *string          `json:"poller"`
+			Discovered *int             `json:"discovered"`
+			Stats      map[string]int   `json:"exchange_stats"`
+			Sigs       map[string][]string `json:"sigs"`
+		}
+		if err := json.Unmarshal(ln, &probe); err != nil {
+			r.Broken("unreadable C19 result line: " + core.Trunc(string(ln), 200))
+			continue
+		}
+		switch {
+		case probe.Ex != nil:
+			var rec struct {
+				Ex        string    `json:"ex"`
+				Calls     []c19Call `json:"calls"`
+				Viol      []c19Viol `json:"viol"`
+				SizeExact bool      `json:"req_size_exact"`
+				Serial    int       `json:"req_serial_len"`
+				Fetched   int       `json:"fetched_len"`
+			}
+			json.Unmarshal(ln, &rec)
+			ex := byTok[rec.Ex]
+			if ex == nil {
+				r.Broken("C19: result for unknown exchange " + rec.Ex)
+				continue
+			}
+			nEx++
+			r.Case(ex.class())
+			if rec.SizeExact {
+				exact++
+			}
+			for _, c := range rec.Calls {
+				if c.Ms > maxMs {
+					maxMs = c.Ms
+				}
+				if c.Ep == "client" && c.Status == 504 {
+					got504++
+				}
+			}
+			hang := false
+			for _, v := range rec.Viol {
+				if strings.Contains(v.Sig, "hangs") {
+					hang = true
+					continue
+				}
+				r.Violate("C19:"+v.Sig, v.Msg, ex, json.RawMessage(ln))
+			}
+			if hang && len(hangRerun) < 3 {
+				hangRerun = append(hangRerun, *ex)
+			}
+			if nEx%400 == 3 || (!ex.Answer && ex.ReqSize > 0) {
+				r.Sample(map[string]interface{}{"exchange": ex, "observed": json.RawMessage(ln)})
+			}
+		case probe.Blob != nil:
+			var rec struct {
+				Blob      int    `json:"blob"`
+				Stack     string `json:"stack"`
+				Kind      string `json:"kind"`
+				Err       string `json:"err"`
+				GotLen    int    `json:"got_len"`
+				FirstDiff int    `json:"first_diff"`
+				MetaWrong string `json:"meta_wrong"`
+			}
+			json.Unmarshal(ln, &rec)
+			nBlob++
+			r.Case(fmt.Sprintf("blob|%s|%s|%s", rec.Stack, rec.Kind, c19SizeCls(rec.Blob)))
+			cs := map[string]interface{}{"size": rec.Blob, "store": rec.Stack, "kind": rec.Kind}
+			switch {
+			case rec.Err != "":
+				r.Violate(fmt.Sprintf("C19:stored-%s-unreadable:%s", rec.Kind, c19SizeCls(rec.Blob)), fmt.Sprintf("%s of %d bytes written to the %s store could not be written/read back: %s", rec.Kind, rec.Blob, rec.Stack, rec.Err), cs, json.RawMessage(ln))
+			case rec.FirstDiff != -1:
+				r.Violate(fmt.Sprintf("C19:stored-%s-differs:%s", rec.Kind, c19SizeCls(rec.Blob)), fmt.Sprintf("%s of %d bytes read back from the %s store as %d bytes, first difference at offset %d", rec.Kind, rec.Blob, rec.Stack, rec.GotLen, rec.FirstDiff), cs, json.RawMessage(ln))
+			case rec.MetaWrong != "":
+				r.Violate("C19:stored-request-metadata-differs", rec.MetaWrong, cs, json.RawMessage(ln))
+			}
+		case probe.Plan != nil:
+			var rec c19PlanRec
+			if err := json.Unmarshal(ln, &rec); err != nil {
+				r.Broken("unreadable C19 plan record: " + err.Error())
+				continue
+			}
+			plans = append(plans, &rec)
+		case probe.Poller != nil:
+			var rec struct {
+				Viol []c19Viol `json:"viol"`
+			}
+			json.Unmarshal(ln, &rec)
+			for _, v := range rec.Viol {
+				r.Violate("C19:"+v.Sig, v.Msg, map[string]string{"poller_of": *probe.Poller}, nil)
+			}
+		case probe.Discovered != nil:
+			r.Set(fmt.Sprintf("api_calls_seen_template_%d", *probe.Discovered), probe.Sigs)
+		case probe.Stats != nil:
+			r.Set("exchange_stats", probe.Stats)
+		}
+	}
+
+	// fault plans: safety violations, and hangs confirmed by a solo re-run
+	confirmed := map[string]bool{}
+	hangSig := func(p *c19PlanRec) string {
+		ep := p.Hung[0]
+		for _, h := range p.Hung {
+			if h != "client" {
+				ep = h
+			}
+		}
+		return c19HangSig(ep, p.Fired)
+	}
+	for _, p := range plans {
+		if len(p.Hung) > 0 && p.Solo != nil && len(p.Solo.Hung) > 0 {
+			confirmed[hangSig(p)] = true
+		}
+	}
+	nPlans, nHung, samples := 0, 0, 0
+	for _, p := range plans {
+		if p.Broken != "" {
+			r.Broken("C19 fault plan " + p.Plan + ": " + p.Broken)
+			continue
+		}
+		nPlans++
+		var fs []string
+		for _, f := range p.Fired {
+			fs = append(fs, c19FaultName(f))
+		}
+		r.Case(fmt.Sprintf("fault|%s|%s|req:%s|resp:%s|rules:%d", p.Endpoint, strings.Join(fs, "+"), c19SizeCls(p.ReqSize), c19SizeCls(p.RespSize), len(p.Rules)))
+		cs := map[string]interface{}{"plan": p.Plan, "failing_calls_at": p.Endpoint, "rules": p.Rules, "request_size": p.ReqSize, "response_size": p.RespSize}
+		for _, c := range p.Calls {
+			if c.Ms > maxMs && !c.Hung {
+				maxMs = c.Ms
+			}
+		}
+		for _, v := range p.Viol {
+			r.Violate("C19:"+v.Sig, fmt.Sprintf("under fault plan %v: %s", p.Fired, v.Msg), cs, p)
+		}
+		if len(p.Hung) > 0 {
+			nHung++
+			sig := hangSig(p)
+			msg := fmt.Sprintf("with the injected failures %v the %s handler did not return within %d s (calls: %+v)", p.Fired, strings.Join(p.Hung, "+"), T/1000, p.Calls)
+			switch {
+			case p.Solo != nil && len(p.Solo.Hung) > 0:
+				r.Violate(sig, msg+"; confirmed by a solo re-run in a fresh process", cs, p)
+			case confirmed[sig]:
+				r.Violate(sig, msg+"; same signature confirmed by the solo re-run of another plan", cs, p)
+			default:
+				r.Inconclusive(fmt.Sprintf("plan %s: %s hung but the solo re-run did not confirm it (%+v)", p.Plan, strings.Join(p.Hung, "+"), p.Solo))
+			}
+		}
+		if samples < 3 && len(p.Rules) == 2 && p.Endpoint == "post" && len(p.Fired) == 2 {
+			samples++
+			r.Sample(map[string]interface{}{"fault_plan": cs, "fired": p.Fired, "calls": p.Calls})
+		}
+	}
+
+	// a hang outside the fault plans: re-run those exchanges alone before reporting
+	if len(hangRerun) > 0 {
+		for i := range hangRerun {
+			one := hangRerun[i]
+			spec2 := map[string]interface{}{"mode": "c19", "t_ms": T, "conc": 1, "backends": c19Backends, "exchanges": []c19Exchange{one}}
+			res2 := e3Run(r, bin, fmt.Sprintf("c19-solo%d", i), spec2, 150*time.Second)
+			again := false
+			for _, ln := range res2.Lines {
+				var rec struct {
+					Viol []c19Viol `json:"viol"`
+				}
+				json.Unmarshal(ln, &rec)
+				for _, v := range rec.Viol {
+					if strings.Contains(v.Sig, "hangs") {
+						again = true
+						r.Violate("C19:"+v.Sig, v.Msg+" (no fault injected; reproduced when the exchange was re-run alone)", one, json.RawMessage(ln))
+					}
+				}
+			}
+			if !again {
+				r.Inconclusive(fmt.Sprintf("exchange %s: a handler exceeded the bound in the concurrent run but not when re-run alone", one.Tok))
+			}
+		}
+	}
+
+	if res.SawEnd && nEx != len(exs) {
+		r.Broken(fmt.Sprintf("C19: %d of %d exchanges reported", nEx, len(exs)))
+	}
+	if res.SawEnd && nPlans < r.Pick(40, 150) {
+		r.Broken(fmt.Sprintf("C19: only %d fault plans were executed", nPlans))
+	}
+	r.Set("exchanges", nEx)
+	r.Set("exchanges_request_size_hit_exactly", exact)
+	r.Set("blob_round_trips", nBlob)
+	r.Set("fault_plans", nPlans)
+	r.Set("fault_plans_with_hanging_call", nHung)
+	r.Set("clients_answered_504", got504)
+	r.Set("slowest_returning_call_ms", int(maxMs))
+	r.Set("progress_bound_ms", T)
+	e3Finish(r, res, r.Pick(150, 3200))
 }
